@@ -12,6 +12,12 @@ export CARGO_NET_OFFLINE=true
 export VERIF_DIR="$HERE"
 export RAYON_NUM_THREADS="${RAYON_NUM_THREADS:-16}"
 mkdir -p "$HERE/evidence" "$HERE/replays"
+# scripts/eval_seeded.sh patches /repo in place and records the patch in flight here; a marker left behind by a
+# killed evaluation means the tree about to be checked may still carry a seeded defect. Informational only: the
+# check runs on /repo's working tree as it stands, whatever it contains.
+if [ -e "$HERE/.seeded_in_flight" ] && [ -z "${VERIF_SEEDED_EVAL:-}" ]; then
+  echo "NOTE: $HERE/.seeded_in_flight names seeded change '$(cat "$HERE/.seeded_in_flight")' (an interrupted scripts/eval_seeded.sh run); /repo's working tree may still contain it" >&2
+fi
 LOG="$HERE/harness/target/build-$ID.log"
 mkdir -p "$HERE/harness/target"
 
